@@ -160,7 +160,11 @@ Record L (s : st) : Prop := mkL {
   L_cur : 0 <= s_len (scur s);
   L_len : Z.of_nat (length (sdeltas s)) = lens (Sp s);
   L_prev : sprev s = sumZ (sdeltas s);
-  L_prev_rng : 0 <= sprev s <= maxInt64 }.
+  L_prev_rng : 0 <= sprev s <= maxInt64;
+  L_lo : Forall (fun o => 0 <= o) (tl (map s_off (Sp s))) }.
+
+Lemma tl_app_nonempty {A} (l x : list A) : l <> [] -> tl (l ++ x) = tl l ++ x.
+Proof. destruct l; [congruence|reflexivity]. Qed.
 
 Lemma append_delta_spec s c : L s -> 0 <= c <= maxInt64 ->
   L (append_delta s c) /\
@@ -169,7 +173,7 @@ Lemma append_delta_spec s c : L s -> 0 <= c <= maxInt64 ->
   sprev (append_delta s c) = c /\ scnt (append_delta s c) = scnt s /\
   sbidx (append_delta s c) = sbidx s /\ snidx (append_delta s c) = snidx s.
 Proof.
-  intros [Hd Hc Hl Hp Hr] Hcr.
+  intros [Hd Hc Hl Hp Hr Hlo] Hcr.
   assert (Hsub : sub64 c (sprev s) = c - sprev s).
   { unfold sub64. apply wrap64_id. unfold int64, minInt64, maxInt64 in *. lia. }
   unfold Sp, E in *. destruct s as [dn [o l] ds cnt prev b n].
@@ -181,6 +185,7 @@ Proof.
   - rewrite app_length, lens_app, lens_cons, lens_nil. cbn [length s_len]. lia.
   - rewrite sumZ_app, Hsub. unfold sumZ at 2. cbn [fold_right]. lia.
   - lia.
+  - rewrite map_app in *. cbn [map s_off] in *. assumption.
   - split; [|split; [|repeat split]].
     + rewrite !extent_app, !extent_cons, !extent_nil. cbn [s_off s_len]. lia.
     + intros p. rewrite expand_snoc_delta by (try assumption; lia).
@@ -190,13 +195,13 @@ Proof.
       destruct (extent dn + (o + l + 0) =? p); lia.
 Qed.
 
-Lemma new_span_spec s g : L s ->
+Lemma new_span_spec s g : L s -> 0 <= g ->
   L (new_span s g) /\ extent (Sp (new_span s g)) = extent (Sp s) + g /\
   E (new_span s g) = E s /\
   sprev (new_span s g) = sprev s /\ scnt (new_span s g) = scnt s /\
   sbidx (new_span s g) = sbidx s /\ snidx (new_span s g) = snidx s.
 Proof.
-  intros [Hd Hc Hl Hp Hr]. unfold Sp, E in *.
+  intros [Hd Hc Hl Hp Hr Hlo] Hg. unfold Sp, E in *.
   destruct s as [dn cur ds cnt prev b n]. cbn [sdone scur sdeltas sprev scnt sbidx snidx new_span] in *.
   rewrite lens_app, lens_cons, lens_nil in Hl.
   split; [constructor; unfold Sp; cbn [sdone scur sdeltas sprev scnt sbidx snidx s_off s_len append_delta new_span]|unfold Sp, E; cbn [sdone scur sdeltas sprev scnt sbidx snidx s_off s_len append_delta new_span]].
@@ -205,6 +210,8 @@ Proof.
   - rewrite !lens_app, !lens_cons, !lens_nil. cbn [s_len]. lia.
   - assumption.
   - assumption.
+  - rewrite map_app. rewrite tl_app_nonempty by (rewrite map_app; intros H; apply app_eq_nil in H; destruct H; discriminate).
+    apply Forall_app. split; [assumption|]. cbn [map s_off]. constructor; [assumption|constructor].
   - split; [|split; [|repeat split]].
     + rewrite !extent_app, !extent_cons, !extent_nil. cbn [s_off s_len]. lia.
     + apply expand_snoc_empty_span.
@@ -233,7 +240,7 @@ Lemma emit_spec s gap : L s -> 0 <= gap -> 0 <= scnt s <= maxInt64 ->
   sprev s' = scnt s /\ scnt s' = scnt s /\ sbidx s' = sbidx s /\ snidx s' = snidx s.
 Proof.
   intros HL Hg Hc. unfold emit. destruct (gap >? 2) eqn:Eg.
-  - destruct (new_span_spec s gap HL) as (HL1 & Hx1 & He1 & Hp1 & Hc1 & Hb1 & Hn1).
+  - destruct (new_span_spec s gap HL Hg) as (HL1 & Hx1 & He1 & Hp1 & Hc1 & Hb1 & Hn1).
     destruct (append_delta_spec (new_span s gap) (scnt s) HL1 Hc) as (HL2 & Hx2 & Hb2 & Hp2 & Hc2 & Hbi2 & Hni2).
     cbv zeta. split; [assumption|]. repeat split; try congruence; try lia.
     intros p. rewrite Hb2, He1, Hx1. reflexivity.
@@ -246,9 +253,9 @@ Qed.
 (* ---------- field updates that do not touch the output ---------- *)
 
 Lemma L_set_cnt_bidx s c b : L s -> L (set_cnt_bidx s c b).
-Proof. intros [H1 H2 H3 H4 H5]. destruct s. constructor; assumption. Qed.
+Proof. intros [H1 H2 H3 H4 H5 H6]. destruct s. constructor; assumption. Qed.
 Lemma L_set_nidx s n : L s -> L (set_nidx s n).
-Proof. intros [H1 H2 H3 H4 H5]. destruct s. constructor; assumption. Qed.
+Proof. intros [H1 H2 H3 H4 H5 H6]. destruct s. constructor; assumption. Qed.
 Lemma E_set_cnt_bidx s c b : E (set_cnt_bidx s c b) = E s. Proof. destruct s; reflexivity. Qed.
 Lemma E_set_nidx s n : E (set_nidx s n) = E s. Proof. destruct s; reflexivity. Qed.
 Lemma Sp_set_cnt_bidx s c b : Sp (set_cnt_bidx s c b) = Sp s. Proof. destruct s; reflexivity. Qed.
@@ -428,7 +435,7 @@ Proof.
   assert (HG0 : G off k (init_off - b0) 0 0 s0).
   { constructor; unfold s0; cbn [sdone scur sdeltas scnt sprev sbidx snidx s_len].
     - constructor; unfold s0, Sp, maxInt64; cbn [sdone scur sdeltas scnt sprev sbidx snidx s_len app length];
-        try reflexivity; try lia. constructor.
+        try reflexivity; try lia; cbn [map tl]; constructor.
     - unfold Sp. cbn. lia.
     - lia.
     - rewrite Hb0. reflexivity.
@@ -492,7 +499,7 @@ Lemma bucket_sums_nonvacuous :
 Proof.
   split; [|split; reflexivity].
   unfold layout_pre_P, int32, minInt32, maxInt32, maxInt64. cbn [length sumZ fold_right].
-  repeat split; try lia; try (repeat constructor; lia). left; reflexivity.
+  repeat split; try lia; try (repeat constructor; lia); try (left; reflexivity).
 Qed.
 
 (* The code before the fix misplaces counts: all 12 observations of source buckets 2 and 3
@@ -504,4 +511,240 @@ Lemma old_refuted :
 Proof.
   exists [0; 0; 5; 7], 0, 1. split; [apply bucket_sums_nonvacuous|].
   exists 1. vm_compute. discriminate.
+Qed.
+
+(* ---------- the emitted layout is a well-formed encoding ---------- *)
+
+Lemma later_offsets_ok_iff r : later_offsets_ok r = true <-> Forall (fun o => 0 <= o) (map s_off r).
+Proof.
+  induction r as [|s r IH]; cbn [later_offsets_ok map].
+  - split; [constructor|reflexivity].
+  - rewrite andb_true_iff, Z.leb_le, IH. split.
+    + intros [H1 H2]. constructor; assumption.
+    + intros H. inversion H; subst. split; assumption.
+Qed.
+
+Lemma L_wf s : L s -> layout_wf (Sp s, sdeltas s) = true.
+Proof.
+  intros [Hd Hc Hl Hp Hr Hlo]. unfold layout_wf. cbn [fst snd].
+  rewrite !andb_true_iff. split; [split|].
+  - apply Z.eqb_eq. exact Hl.
+  - apply forallb_forall. intros x Hx. apply Z.leb_le. unfold Sp in Hx.
+    apply in_app_or in Hx. destruct Hx as [Hx|[<-|[]]]; [|assumption].
+    unfold lens_ok in Hd. rewrite Forall_forall in Hd. apply Hd; assumption.
+  - destruct (Sp s) as [|x r]; [reflexivity|]. apply later_offsets_ok_iff. exact Hlo.
+Qed.
+
+Theorem layout_wf_ok cs off k adj :
+  layout_pre_P cs off k adj -> layout_wf (convert_buckets_layout cs off k adj) = true.
+Proof.
+  intros Hpre. destruct (list_eq_dec Z.eq_dec cs []) as [->|Hne].
+  - reflexivity.
+  - destruct (final_state cs off k adj Hpre Hne) as (HG & HB).
+    destruct Hpre as (Hpos & Hsum & Hoff & Hlen & Hon & Hk & Hadj).
+    assert (Hn : 1 <= Z.of_nat (length cs) <= maxInt32).
+    { destruct cs; [congruence|]. cbn [length] in *. lia. }
+    unfold convert_buckets_layout. rewrite convert_unfold by assumption.
+    cbv zeta in *.
+    set (b0 := wrap32 (ashr off k + 1)) in *.
+    set (init_off := if adj then b0 else off) in *.
+    set (s1 := loop true off k 0 cs _) in *.
+    destruct HG as [HL Hext Hnidx Hbidx Hcnt Hprev].
+    set (n := Z.of_nat (length cs)) in *.
+    assert (Hg : wrap32 (sbidx s1 - snidx s1) = sbidx s1 - snidx s1).
+    { apply wrap32_id.
+      pose proof (T_spread off k n Hoff Hk Hn Hon 0 (Z.max 0 (n - 1)) ltac:(lia) ltac:(lia)).
+      pose proof (T_range off k n Hoff Hk Hon 0 ltac:(lia)).
+      unfold int32, minInt32, maxInt32 in *. lia. }
+    rewrite Hg.
+    destruct (emit_spec s1 (sbidx s1 - snidx s1) HL ltac:(lia) ltac:(lia)) as (HL2 & _).
+    apply (L_wf _ HL2).
+Qed.
+
+(* a well-formed layout lists its buckets in strictly increasing index order, so [bucket_at]
+   is the count of THE bucket with that index *)
+Fixpoint increasing_from (lo : Z) (l : list (Z * Z)) : Prop :=
+  match l with [] => True | (p, _) :: r => lo <= p /\ increasing_from (p + 1) r end.
+
+(* ---------- data points ---------- *)
+
+Lemma convert_timestamp_ms ns : 0 <= ns <= maxInt64 ->
+  convert_timestamp ns = ns / 1000000 /\
+  1000000 * convert_timestamp ns <= ns < 1000000 * (convert_timestamp ns + 1).
+Proof.
+  intros H. unfold convert_timestamp, godiv. rewrite wrap64_id by (apply int64_nonneg; assumption).
+  rewrite Z.quot_div_nonneg by lia. split; [reflexivity|].
+  pose proof (Z.div_mod ns 1000000 ltac:(lia)). pose proof (Z.mod_pos_bound ns 1000000 ltac:(lia)). lia.
+Qed.
+
+Lemma sum_count_spec norec hassum sum count :
+  let '(s, c, w) := sum_count norec hassum sum count in
+  (norec = true -> s = staleNaN /\ c = staleNaN) /\
+  (norec = false -> c = count /\ s = (if hassum then sum else 0)).
+Proof. unfold sum_count. destruct norec; split; intros; try discriminate; split; reflexivity. Qed.
+
+Definition scale_down (scale : Z) : Z := Z.max 0 (scale - 8).
+
+Lemma exp_to_native_spec p delta :
+  int32 (e_scale p) ->
+  (e_scale p < -4 -> exp_to_native true p delta = None) /\
+  (-4 <= e_scale p -> exists h w, exp_to_native true p delta = Some (h, w) /\
+     schema h = Z.min (e_scale p) 8 /\
+     hint h = (if delta then hintGauge else hintUnknown) /\
+     zcount h = e_zero p /\ custom h = [] /\
+     (e_norec p = true -> hsum h = staleNaN /\ hcount h = staleNaN) /\
+     (e_norec p = false -> hcount h = e_count p /\ hsum h = (if e_hassum p then e_sum p else 0)) /\
+     (layout_pre_P (b_counts (e_pos p)) (b_off (e_pos p)) (scale_down (e_scale p)) true ->
+        layout_wf (pspans h, pdeltas h) = true /\
+        forall i, bucket_at (buckets_of (pspans h, pdeltas h)) i =
+                  ref_sum (b_counts (e_pos p)) (b_off (e_pos p)) (scale_down (e_scale p)) true i) /\
+     (layout_pre_P (b_counts (e_neg p)) (b_off (e_neg p)) (scale_down (e_scale p)) true ->
+        layout_wf (nspans h, ndeltas h) = true /\
+        forall i, bucket_at (buckets_of (nspans h, ndeltas h)) i =
+                  ref_sum (b_counts (e_neg p)) (b_off (e_neg p)) (scale_down (e_scale p)) true i)).
+Proof.
+  intros Hs. unfold exp_to_native. split.
+  - intros H. apply Z.ltb_lt in H. rewrite H. reflexivity.
+  - intros H. assert (Hlt : (e_scale p <? -4) = false) by (apply Z.ltb_ge; lia). rewrite Hlt.
+    assert (Hsd : (if e_scale p >? 8 then wrap32 (e_scale p - 8) else 0) = scale_down (e_scale p)).
+    { unfold scale_down. destruct (Z.gtb_spec (e_scale p) 8).
+      - rewrite wrap32_id by (unfold int32, minInt32, maxInt32 in *; lia). lia.
+      - lia. }
+    rewrite Hsd.
+    pose proof (sum_count_spec (e_norec p) (e_hassum p) (e_sum p) (e_count p)) as Hsc.
+    destruct (sum_count (e_norec p) (e_hassum p) (e_sum p) (e_count p)) as [[s c] w].
+    destruct Hsc as [Hsc1 Hsc2].
+    eexists. eexists. split; [reflexivity|]. cbn [schema hint zcount custom hsum hcount pspans pdeltas nspans ndeltas].
+    repeat split.
+    + destruct (Z.gtb_spec (e_scale p) 8); lia.
+    + apply Hsc1; assumption.
+    + apply Hsc1; assumption.
+    + apply Hsc2; assumption.
+    + apply Hsc2; assumption.
+    + rewrite <- surjective_pairing. apply layout_wf_ok; assumption.
+    + intros i. rewrite <- surjective_pairing. apply bucket_sums; assumption.
+    + rewrite <- surjective_pairing. apply layout_wf_ok; assumption.
+    + intros i. rewrite <- surjective_pairing. apply bucket_sums; assumption.
+Qed.
+
+(* ---------- explicit buckets -> custom buckets ---------- *)
+
+Lemma ref_sum_from_shift o : forall r i p,
+  ref_sum_from o 0 false i r p = ref_sum_from 0 0 false (i + o) r p.
+Proof.
+  induction r as [|c r IH]; intros i p; cbn [ref_sum_from]; [reflexivity|].
+  rewrite IH. unfold target_of. replace (i + 1 + o) with (i + o + 1) by lia.
+  replace (i + o + 0) with (i + o) by lia. reflexivity.
+Qed.
+
+Lemma lz_facts cs :
+  (leading_zeros cs <= length cs)%nat /\
+  sumZ (skipn (leading_zeros cs) cs) = sumZ cs /\
+  (Forall (fun c => 0 <= c) cs -> Forall (fun c => 0 <= c) (skipn (leading_zeros cs) cs)) /\
+  forall i p, ref_sum_from 0 0 false i cs p =
+              ref_sum_from 0 0 false (i + Z.of_nat (leading_zeros cs)) (skipn (leading_zeros cs) cs) p.
+Proof.
+  induction cs as [|c r (IH1 & IH2 & IH3 & IH4)].
+  - cbn [leading_zeros skipn length]. repeat split; try lia; auto; intros; replace (i + Z.of_nat 0) with i by lia; reflexivity.
+  - destruct c.
+    + cbn [leading_zeros skipn length]. repeat split.
+      * lia.
+      * rewrite IH2. unfold sumZ. cbn [fold_right]. lia.
+      * intros H. inversion H; subst. apply IH3; assumption.
+      * intros i p. cbn [ref_sum_from]. rewrite IH4.
+        replace (i + 1 + Z.of_nat (leading_zeros r)) with (i + Z.of_nat (S (leading_zeros r))) by lia.
+        destruct (target_of 0 0 false i =? p); lia.
+    + cbn [leading_zeros skipn length]. repeat split; try lia; auto; intros; replace (i + Z.of_nat 0) with i by lia; reflexivity.
+    + cbn [leading_zeros skipn length]. repeat split; try lia; auto; intros; replace (i + Z.of_nat 0) with i by lia; reflexivity.
+Qed.
+
+(* bucket j of an explicit-bucket histogram is element j of its count array *)
+Lemma ref_sum_identity : forall cs i p,
+  ref_sum_from 0 0 false i cs p = if (i <=? p) && (p <? i + Z.of_nat (length cs)) then nth (Z.to_nat (p - i)) cs 0 else 0.
+Proof.
+  induction cs as [|c r IH]; intros i p; cbn [ref_sum_from length].
+  - destruct ((i <=? p) && (p <? i + Z.of_nat 0)) eqn:E; [|reflexivity].
+    apply andb_true_iff in E. destruct E as [E1 E2]. apply Z.leb_le in E1. apply Z.ltb_lt in E2. lia.
+  - rewrite IH. unfold target_of. replace (i + 0) with i by lia.
+    destruct (i =? p) eqn:E0; [apply Z.eqb_eq in E0 | apply Z.eqb_neq in E0].
+    + subst p. replace (i - i) with 0 by lia. cbn [Z.to_nat nth].
+      replace ((i + 1 <=? i)) with false by (symmetry; apply Z.leb_gt; lia). cbn [andb].
+      replace (i <=? i) with true by (symmetry; apply Z.leb_le; lia).
+      replace (i <? i + Z.of_nat (S (length r))) with true by (symmetry; apply Z.ltb_lt; lia).
+      cbn [andb]. lia.
+    + destruct (i <=? p) eqn:E1; [apply Z.leb_le in E1 | apply Z.leb_gt in E1].
+      * replace (i + 1 <=? p) with true by (symmetry; apply Z.leb_le; lia).
+        replace (i + 1 + Z.of_nat (length r)) with (i + Z.of_nat (S (length r))) by lia.
+        cbn [andb]. destruct (p <? i + Z.of_nat (S (length r))); [|lia].
+        replace (Z.to_nat (p - i)) with (S (Z.to_nat (p - (i + 1)))) by lia. cbn [nth]. lia.
+      * replace (i + 1 <=? p) with false by (symmetry; apply Z.leb_gt; lia). cbn [andb]. lia.
+Qed.
+
+Definition hist_pre (p : histpt) : Prop :=
+  Forall (fun c => 0 <= c) (h_counts p) /\ sumZ (h_counts p) <= maxInt64 /\
+  Z.of_nat (length (h_counts p)) <= maxInt32.
+
+Lemma explicit_to_custom_spec p delta : hist_pre p ->
+  let h := fst (explicit_to_custom true p delta) in
+  schema h = customBucketsSchema /\ custom h = h_bounds p /\
+  hint h = (if delta then hintGauge else hintUnknown) /\ zcount h = 0 /\ nspans h = [] /\ ndeltas h = [] /\
+  (h_norec p = true -> hsum h = staleNaN /\ hcount h = staleNaN) /\
+  (h_norec p = false -> hcount h = h_count p /\ hsum h = (if h_hassum p then h_sum p else 0)) /\
+  layout_wf (pspans h, pdeltas h) = true /\
+  forall j, bucket_at (buckets_of (pspans h, pdeltas h)) j =
+            if (0 <=? j) && (j <? Z.of_nat (length (h_counts p))) then nth (Z.to_nat j) (h_counts p) 0 else 0.
+Proof.
+  intros (Hpos & Hsum & Hlen). unfold explicit_to_custom.
+  pose proof (sum_count_spec (h_norec p) (h_hassum p) (h_sum p) (h_count p)) as Hsc.
+  destruct (sum_count (h_norec p) (h_hassum p) (h_sum p) (h_count p)) as [[s c] w].
+  destruct Hsc as [Hsc1 Hsc2]. cbn [fst schema custom hint zcount nspans ndeltas hsum hcount pspans pdeltas].
+  destruct (lz_facts (h_counts p)) as (Hle & Hs & Hf & Hr).
+  set (o := leading_zeros (h_counts p)) in *.
+  assert (Hw : wrap32 (Z.of_nat o) = Z.of_nat o).
+  { apply wrap32_id. unfold int32, minInt32, maxInt32 in *. lia. }
+  rewrite Hw.
+  assert (Hpre : layout_pre_P (skipn o (h_counts p)) (Z.of_nat o) 0 false).
+  { unfold layout_pre_P. rewrite skipn_length.
+    repeat split; try (apply Hf; assumption); try lia;
+      try (unfold int32, minInt32, maxInt32 in *; lia); try (right; reflexivity). }
+  repeat split; try (apply Hsc1; assumption); try (apply Hsc2; assumption).
+  - rewrite <- surjective_pairing. apply layout_wf_ok; assumption.
+  - intros j. rewrite <- surjective_pairing. rewrite bucket_sums by assumption.
+    unfold ref_sum. rewrite ref_sum_from_shift. replace (0 + Z.of_nat o) with (0 + Z.of_nat o) by lia.
+    rewrite <- Hr. rewrite ref_sum_identity. replace (j - 0) with j by lia. reflexivity.
+Qed.
+
+Lemma temporality_gate fixed s t :
+  temp_ok s t = false ->
+  (forall pts, from_metric_gen fixed s (MSum t pts) = error_result) /\
+  (forall pts, from_metric_gen fixed s (MHist t pts) = error_result) /\
+  (forall pts, from_metric_gen fixed s (MExp t pts) = error_result).
+Proof. intros H. unfold from_metric_gen. rewrite H. repeat split. Qed.
+
+Lemma number_points p :
+  num_sample p = Float SPlain (convert_timestamp (n_st p)) (convert_timestamp (n_ts p)) (num_value p) /\
+  (n_norec p = true -> num_value p = staleNaN) /\
+  (n_norec p = false -> forall b, n_val p = DblV b -> num_value p = b) /\
+  (n_norec p = false -> forall v, n_val p = IntV v -> num_value p = float_of_Z v).
+Proof.
+  unfold num_sample, num_value. split; [reflexivity|].
+  destruct (n_norec p); repeat split; intros; try discriminate; try reflexivity;
+    match goal with H : n_val p = _ |- _ => rewrite H; reflexivity end.
+Qed.
+
+Lemma exp_nonvacuous :
+  let p := mkExp 9 1 (mkB 0 [0; 0; 5; 7]) (mkB (-3) [2; 0; 0; 0; 0; 1]) 16 true 0 false 5000000 0 in
+  int32 (e_scale p) /\ -4 <= e_scale p /\
+  layout_pre_P (b_counts (e_pos p)) (b_off (e_pos p)) (scale_down (e_scale p)) true /\
+  layout_pre_P (b_counts (e_neg p)) (b_off (e_neg p)) (scale_down (e_scale p)) true.
+Proof.
+  cbv zeta. cbn [e_scale e_pos e_neg b_counts b_off]. unfold layout_pre_P, int32, minInt32, maxInt32, maxInt64, scale_down.
+  cbn [length sumZ fold_right].
+  repeat split; try lia; try (repeat constructor; lia); try (left; reflexivity).
+Qed.
+
+Lemma hist_nonvacuous : hist_pre (mkHist [] [0; 3; 0; 9] 12 true 0 false 0 0).
+Proof.
+  unfold hist_pre, maxInt64, maxInt32. cbn [h_counts length sumZ fold_right].
+  repeat split; try lia; repeat constructor; lia.
 Qed.
